@@ -148,6 +148,10 @@ impl Engine for TableEngine {
         let me = rng.bytes(20);
         let routers: Vec<String> = (0..rng.below(3)).map(|_| mk_addr(rng, 50)).collect();
         ops.push(format!("new {} routers={}", hex(&me), if routers.is_empty() { "-".to_string() } else { routers.join(",") }));
+        // the empty table (no assorted nodes to hand out)
+        ops.push(format!("closest {} @{t}", hex(&me)));
+        ops.push(format!("closest {} @{t}", hex(&rng.bytes(20))));
+        ops.push(format!("contacts @{t}"));
         let n = match kind { 1 => 120, 2 => 400, 3 => 250, _ => 200 } * if thorough { 6 } else { 1 };
         let pool = *rng.pick(&[20u64, 200, 2000]);
         let mut known: Vec<(String, String)> = vec![];
